@@ -195,12 +195,14 @@ class Lemma:
     of States, each holding the obligations of one case (base / step); nothing is assumed by fiat.
     Other units use the lemma only through instances of its statement."""
 
-    def __init__(self, name, build, doc="", prop_clause=None):
+    def __init__(self, name, build, doc="", prop_clause=None, advisory=False, replay=None):
         self.name = name
         self.build = build
         self.doc = doc
         self.target = "lemma:" + name
-        self.replay = None
+        self.replay = replay
+        # advisory: a condition on the source text that is sufficient, not necessary, for the property
+        self.advisory = advisory
         self.prop_clause = prop_clause
 
     def verify(self):
